@@ -113,7 +113,8 @@ def check(ctx):
     sets = find("random_state.setstate(state_data)", rs, nested=False)
     draws = [c for c in calls(rs, None, nested=False) if isinstance(c.func, ast.Attribute) and unparse(c.func.value) == "random_state" and c.func.attr in ("random", "randint", "choice", "uniform", "sample", "shuffle", "getrandbits")]
     ctx.count("random_sample_draws", len(draws))
-    ctx.floor("random_sample_draws", 1)
+    if ctor:
+        ctx.floor("random_sample_draws", 1)
     ok = bool(sets) and all(dominates(rs, sets[0][0], d) for d in draws) and reaching_of(rs).is_param(sets[0][0], "state_data")
     ctx.ob("EFFECT.seeded.before-first-draw", rs, "random_state.setstate(<parameter state_data>) dominates every draw", ok, "" if ok else "a draw can happen from an unseeded generator: the sample differs between recomputations")
     amb = [c for c in calls(rs, None, nested=False) if call_name(c) and call_name(c).split(".")[0] in ("random", "rnd", "np") and c not in draws and call_name(c) not in ("random_state.setstate",)]
@@ -143,6 +144,16 @@ def check(ctx):
     bad = [a for a in acc if isinstance(a.value, ast.Name) and a.value.id in loopvars]
     ok = bool(acc) and not bad and any(isinstance(a.value, ast.List) and not a.value.elts for a in acc)
     ctx.ob("EFFECT.no-alias.reduce", sr_, "_sample_reduce accumulates into its own fresh list (s = []), never into one of the incoming reservoirs", ok, "" if ok else f"`{unparse(bad[0]) if bad else 's'}` aliases an incoming reservoir, which is then extended in place")
+    # ---------------- the per-partition generator of random_sample is private to the call
+    rsf = ctx.model.module(BAG).func("random_sample")
+    ctor = [a for a in walk_no_nested(rsf) if isinstance(a, ast.Assign) and isinstance(a.value, ast.Call) and call_name(a.value) == "Random" and not a.value.args]
+    draws = [c for c in calls(rsf, "random") if isinstance(c.func, ast.Attribute)]
+    ok = len(ctor) == 1 and bool(draws) and all(unparse(c.func.value) == unparse(ctor[0].targets[0]) for c in draws) and bool(find(f"{unparse(ctor[0].targets[0])}.setstate(state_data)", rsf)) if ctor else False
+    ctx.ob("EFFECT.seeded.private-generator", rsf, "random_sample creates its own Random() per call, seeds it with state_data and draws only from it", ok, "" if ok else "a generator shared between calls is re-seeded and drawn from: lazily chained or zipped seeded samples clobber each other's stream")
+    # ---------------- weighted sampling without replacement works on POSITIONS, not values
+    ws = rnd.func("_weighted_sampling_without_replacement")
+    ok = bool(find("elt = [(math.log(rnd.random()) / weights[i], i) for i in range(len(weights))]", ws)) and any(unparse(r.value) == "[population[x[1]] for x in heapq.nlargest(k, elt)]" for r in returns(ws))
+    ctx.ob("ALG.sample.by-position", ws, "keys are computed per position i and the k largest positions are returned", ok, "" if ok else "sampling by value merges duplicate elements (and needs hashable elements): fewer candidates than the population holds")
 
 
 VARIANTS = [
